@@ -1,4 +1,4 @@
-//@ assume: Segment::root (abstract: returns sp_root; ASSUMED: it returns Ok(None) only for a prunable MMR, i.e. when a bitmap was passed -- true of the code by reading: a `None` hash is only ever produced under `bitmap.map(..)` / `bitmap.is_some()`; not machine-checked), Segment::get_hash (abstract: sp_hash_at(pos)), segment_pos_range (contract proved in C16/segment_ident; here only `last < mmr_size` is used), croaring Bitmap::range_cardinality (abstract: card(lo, hi) = number of set bits in [lo, hi))
+//@ assume: Segment::root (abstract: returns sp_root; ASSUMED: it returns Ok(None) only for a prunable MMR, i.e. when a bitmap was passed -- proved as a postcondition of the real function in C16/segment_root, a separate unit with its own abstract types, so it enters here as an assumed contract), Segment::get_hash (abstract: sp_hash_at(pos)), segment_pos_range (contract proved in C16/segment_ident; here only `last < mmr_size` is used), croaring Bitmap::range_cardinality (abstract: card(lo, hi) = number of set bits in [lo, hi))
 //@ assume: pmmr::n_leaves / bintree_leftmost / bintree_rightmost / family_branch are abstract here with uninterpreted results; their exact contracts are proved in C07/pmmr_arith; used here: leftmost(p) <= p, rightmost(p) <= p, 1 <= n_leaves(x) <= x for x >= 1, every family_branch position is < mmr_size
 //@ assume: T5: `Vec<(u64,u64)>::into_iter()` / `.next()` => abstract FbVec / FbIter (yields the elements in order). T6: `self.get_hash(pos0).map(|h| (h, 1 + pos0))` => the equivalent `match` (Result::map with an un-annotated closure is outside the verifier)
 //@ assume: assumed precondition: 1 <= mmr_size < 2^63
